@@ -17,6 +17,9 @@ FB = [
 ]
 
 
+OVERRIDE = dict(site="c2.fb_angle_override", owner="c2", meth="get_angle", key=None, hint=float, nt="/components/c2/angle", topic="DoubleTopic")
+
+
 def _mk_getter(H, spec, state):
     site = spec["site"]
 
@@ -66,6 +69,9 @@ def run(c, job):
                 # R2's c2 class inherits CompA: its own feedbacks are added to the subclass only
                 for cls in (CompB, CompB1):
                     setattr(cls, spec["meth"], _decorate(feedback, _mk_getter(H, spec, state), spec))
+        # R2: the subclass overrides the inherited get_angle and decorates the override too
+        ov = dict(OVERRIDE)
+        setattr(CompB, ov["meth"], _decorate(feedback, _mk_getter(H, ov, state), ov))
         H.fb_specs = list(FB)
 
     def robot_fb(H, RobotBase0, feedback):
@@ -91,9 +97,9 @@ def clauses(c, H):
     layout = H.job["layout"]
     specs = list(FB)
     if layout == "R2":
-        # c2 (CompB) inherits CompA's getters as well: published under /components/c2/...
+        # c2 (CompB) inherits CompA's getters as well: published under /components/c2/...; get_angle is overridden
         specs = specs + [dict(s, site=s["site"], owner="c2", nt=s["nt"].replace("/c1/", "/c2/"), inherited=True)
-                         for s in FB if s["owner"] == "c1"]
+                         for s in FB if s["owner"] == "c1" and s["meth"] != "get_angle"] + [dict(OVERRIDE)]
     last = {}
     for sg in segs:
         for it in sg.iters:
@@ -110,9 +116,9 @@ def clauses(c, H):
                     rets.setdefault(e[1], []).append(e[2])
                 elif e[0] == "raise":
                     raised.add(e[1])
-            for s in FB:
+            for s in FB + ([OVERRIDE] if layout == "R2" else []):
                 n = order.count(s["site"])
-                exp_n = 2 if (layout == "R2" and s["owner"] == "c1") else 1
+                exp_n = 2 if (layout == "R2" and s["owner"] == "c1" and s["meth"] != "get_angle") else 1
                 c.prove("C11.once getter-called-once-per-iteration", n == exp_n, info=dict(site=s["site"], calls=n, mode=sg.mode))
             # published values: in R2 the inherited getters are called twice (c1 then c2): map by order
             seen = {}
